@@ -423,6 +423,18 @@ func lemmaTickMonotone(intervalStart uint64, intervalsPerDay uint32, t1, t2 uint
 //@ option noimplicit
 //@ loop 0 invariant #idx: 0 <= iter0 && iter0 <= rangelen
 //@ exit #openFailureTolerated: err2 != nil ==> typeis(err, "@/executor/wal.ReplayError")
+// the same for a failure caused by the contents of the data file (a crash between the data write and the index write
+// of a variable-length interval leaves an index record pointing into overwritten bytes)
+//@ exit #contentErrorTolerated: (err != nil && fileContentError(err)) ==> typeis(err, "@/executor/wal.ReplayError")
+
+//@ func WriteBufferToFile
+//@ trusted "one WriteAt on the data file: fails only with an I/O error"
+//@ modifies ghost:primaryDirty
+//@ ensures !fileContentError(result)
+
+//@ func WriteBufferToFileIndirect
+//@ trusted "variable-length append: reads the interval's index record and old compressed block back (seek, read, snappy decode), writes the merged block and the new index record; an unreadable or undecodable old block is reported as a plain error"
+//@ modifies ghost:primaryDirty
 
 
 //@ func (*WALCleaner).CleanupOldWALFiles
